@@ -230,7 +230,7 @@ class _Gen(spec.TermGen):
         if kind == "nid":
             return r.choice([["s", "id0"], ["i", 3], ["t", [["s", "n"], ["i", 1]]]])
         if kind == "kw" and r.random() < 0.3:
-            keys = r.sample(["a", "b", "c"], r.randint(1, 2))
+            keys = r.sample(["a", "b", "c"], r.randint(1, 3))
             # deprecated: a plain dict, or a read-only view of one
             return [r.choice(["d", "d", "mp"]), [[k, self.term(depth + 1)] for k in keys]]
         if kind == "op" and r.random() < 0.15:
@@ -333,6 +333,36 @@ def normalise_term(t):
     return t
 
 
+def _reorder_kw(r, t):
+    """Copy of t with the items of one keyword mapping in another insertion order (mapping
+    equality does not look at the order)."""
+    import copy as _c
+    paths = []
+
+    def walk(x, path):
+        k = x[0]
+        if k in ("im", "d", "mp") and len(x[1]) >= 2:
+            paths.append(path)
+        if k == "n":
+            for j, c in enumerate(x[2]):
+                walk(c, path + [2, j])
+        elif k == "t":
+            for j, c in enumerate(x[1]):
+                walk(c, path + [1, j])
+        elif k in ("im", "d", "mp"):
+            for j, (kk, c) in enumerate(x[1]):
+                walk(c, path + [1, j, 1])
+    walk(t, [])
+    if not paths:
+        return None
+    t2 = _c.deepcopy(t)
+    node = t2
+    for step in r.choice(paths):
+        node = node[step]
+    node[1].reverse()
+    return t2
+
+
 def _retype_one(r, t):
     """Copy of t with one numeric leaf replaced by an ==-equal value of another type."""
     import copy as _c
@@ -421,6 +451,8 @@ def generate(seed, tier):
             if x < 0.35:
                 t = ["fresh", bname]
                 kind = "twin"
+                if r.random() < 0.3:
+                    t = _reorder_kw(r, base) or t
             elif x < 0.58:
                 # unequal, but with an equal hash: class swapped among same-shape classes
                 t = spec.collide_variant(r, base)
